@@ -43,6 +43,10 @@ struct verif_in {
 	unsigned cnt_error, cnt_unrec;
 	/* parity offer region */
 	int po_present[LEV_MAX], po_read_ret[LEV_MAX], po_stale[LEV_MAX], po_auditonly;
+	/* repair fetch region */
+	unsigned rf_state[NF];
+	int rf_import_ret[NF], rf_search_ret[NF], rf_rehash;
+	unsigned char rf_hash[NF * 16];
 };
 VERIF_DECLARE_IN
 
@@ -520,6 +524,112 @@ void h_parity_offer(void)
 	}
 	VERIF_ASSERT(out_zero == buffer[buffermax - 1], "the zero buffer is the last one");
 	VERIF_ASSERT(error == IN.cnt_error + nfail, "every parity read error is counted");
+	VERIF_CANARY();
+}
+
+
+/*
+ * The shortcut of repair() (first strategy, region "we are not interested in DELETED ones" .. "if nothing to fix"): a bad block
+ * may be filled from an imported / moved / duplicate file instead of being rebuilt from parity ONLY when the hash recorded for
+ * it describes its CURRENT content - a synced (BLK) or replaced (REP) block.  The hash of a pending (CHG) block is the one of
+ * the content it REPLACED: data fetched by that hash would be "verified" against the wrong content (C19, C05).
+ *   - no fetch for a block that is not bad, and none for a bad CHG block: it always goes to the reconstruction
+ *   - for a bad BLK / REP block the import index is asked first, then the search index; the block and the buffer slot handed
+ *     to the fetch are the ones of the entry
+ *   - exactly the bad entries not satisfied by a fetch enter the reconstruction, in order
+ */
+static unsigned g_rf_import[NF], g_rf_search[NF], g_rf_order, g_rf_import_when[NF], g_rf_search_when[NF];
+static struct snapraid_block *g_rf_block(unsigned j);
+static unsigned char RFB0[64], RFB1[64], RFB2[64];
+static unsigned char *const RFB[NF] = { RFB0, RFB1, RFB2 };
+static struct snapraid_block *g_rf_block(unsigned j) { return (struct snapraid_block *)RFB[j]; }
+static int rf_entry_of(struct snapraid_block *block)
+{
+	unsigned j;
+	for (j = 0; j < NF; ++j)
+		if (block == g_rf_block(j))
+			return (int)j;
+	VERIF_ASSERT(0, "the block of an entry of the failed set");
+	return 0;
+}
+static int rf_import(struct snapraid_state *state, int rehash, struct snapraid_block *block, unsigned char *buffer)
+{
+	int j = rf_entry_of(block);
+	(void)state;
+	VERIF_ASSERT(rehash == IN.rf_rehash, "the migration flag is passed on");
+	VERIF_ASSERT(buffer == BUF[IN.index[j] % 4], "the data fetched lands in the buffer slot of the entry");
+	++g_rf_import[j]; g_rf_import_when[j] = ++g_rf_order;
+	return IN.rf_import_ret[j] ? -1 : 0;
+}
+static int rf_search(struct snapraid_state *state, int rehash, struct snapraid_file *file, block_off_t file_pos, struct snapraid_block *block, unsigned char *buffer)
+{
+	int j = rf_entry_of(block);
+	(void)state;
+	VERIF_ASSERT(rehash == IN.rf_rehash, "the migration flag is passed on");
+	VERIF_ASSERT(buffer == BUF[IN.index[j] % 4] && file == FIL[j] && file_pos == IN.file_pos[j], "the search is made for the file and position of the entry, into its buffer slot");
+	++g_rf_search[j]; g_rf_search_when[j] = ++g_rf_order;
+	return IN.rf_search_ret[j] ? -1 : 0;
+}
+#define state_import_fetch rf_import
+#define state_search_fetch rf_search
+#include "region_repair_fetch.c"
+#undef state_import_fetch
+#undef state_search_fetch
+
+void h_repair_fetch(void)
+{
+	static struct snapraid_state ST;
+	static struct failed_struct FAILED[NF];
+	unsigned failed_map[NF];
+	void *buffer[4 + LEV_MAX];
+	unsigned j, want = 0;
+	int n = -1, something = -1;
+	VERIF_INPUTS();
+	VERIF_ASSUME(IN.failed_count <= NF);
+	for (j = 0; j < 4 + LEV_MAX; ++j)
+		buffer[j] = BUF[j];
+	for (j = 0; j < NF; ++j) {
+		VERIF_ASSUME(IN.rf_state[j] == BLOCK_STATE_BLK || IN.rf_state[j] == BLOCK_STATE_REP || IN.rf_state[j] == BLOCK_STATE_CHG || IN.rf_state[j] == BLOCK_STATE_DELETED);
+		/* a deleted block has no file to read: it is never bad */
+		VERIF_ASSUME(!(IN.rf_state[j] == BLOCK_STATE_DELETED && IN.is_bad[j]));
+		block_state_set(g_rf_block(j), IN.rf_state[j]);
+		memcpy(g_rf_block(j)->hash, &IN.rf_hash[j * 16], 16); /* any recorded hash, the ZERO and INVALID markers included */
+		FAILED[j].is_bad = IN.is_bad[j] != 0;
+		FAILED[j].is_outofdate = 0;
+		FAILED[j].index = IN.index[j] % 4;
+		FAILED[j].block = g_rf_block(j);
+		FAILED[j].file = FIL[j];
+		FAILED[j].file_pos = IN.file_pos[j];
+		FAILED[j].handle = HND[j];
+		FAILED[j].disk = &DK;
+		failed_map[j] = 99;
+		g_rf_import[j] = g_rf_search[j] = 0;
+	}
+	g_rf_order = 0;
+	region_repair_fetch(&ST, IN.rf_rehash, FAILED, failed_map, IN.failed_count, buffer, &n, &something);
+	for (j = 0; j < NF; ++j) {
+		int cur = IN.rf_state[j] == BLOCK_STATE_BLK || IN.rf_state[j] == BLOCK_STATE_REP;
+		int fetched;
+		if (j >= IN.failed_count || !IN.is_bad[j]) {
+			VERIF_ASSERT(g_rf_import[j] == 0 && g_rf_search[j] == 0, "nothing is fetched for a block that is not bad");
+			continue;
+		}
+		if (!cur) {
+			VERIF_ASSERT(g_rf_import[j] == 0 && g_rf_search[j] == 0, "no data is fetched by the hash of a pending (CHG) block: that hash describes the content it replaced");
+			fetched = 0;
+		} else {
+			VERIF_ASSERT(g_rf_import[j] == 1, "the import index is asked once for a bad block with a current hash");
+			VERIF_ASSERT(g_rf_search[j] == (IN.rf_import_ret[j] ? 1u : 0u), "the search index is asked exactly when the import index had nothing");
+			if (g_rf_search[j])
+				VERIF_ASSERT(g_rf_import_when[j] < g_rf_search_when[j], "import first, then search");
+			fetched = !IN.rf_import_ret[j] || !IN.rf_search_ret[j];
+		}
+		if (!fetched) {
+			VERIF_ASSERT(want < NF && failed_map[want] == j, "exactly the bad entries not satisfied by a verified fetch enter the reconstruction, in order");
+			++want;
+		}
+	}
+	VERIF_ASSERT(n == (int)want && (something != 0) == (want != 0), "the number of entries to reconstruct is reported");
 	VERIF_CANARY();
 }
 
